@@ -14,9 +14,9 @@ RULE = (
     "subscribe before the run ('pre'), from the producer thread before its j-th emission, or from their own thread "
     "('thr', racing the producer: subscribe-time replay + ensure_active against the producer's on_next + ensure_active). "
     "S = EventLoopScheduler, CatchScheduler(EventLoopScheduler) whose handler swallows the probe's exception (the loop "
-    "survives, so has_faulted alone must silence the rest) or NewThreadScheduler (every drain step on a new thread, so "
-    "only the is_acquired handshake keeps deliveries serial). A probe yields inside every callback and may raise at "
-    "delivery k; the producer may dispose subscription 0 before emission j. The received list of a probe is logged by a "
+    "survives, so has_faulted alone must silence the rest), NewThreadScheduler (every drain step on a new thread, so "
+    "only the is_acquired handshake keeps deliveries serial) or ThreadPoolScheduler(2) (drain steps on pooled workers). A probe yields inside every callback and may raise at "
+    "delivery k or dispose its own subscription from inside delivery k; the producer may dispose subscription 0 before emission j. The received list of a probe is logged by a "
     "recording subclass of ScheduledObserver/ObserveOnObserver at _on_next_core/_on_error_core/_on_completed_core. Engine DET (vlib/det.py) runs the real code "
     "with line-level yield points ('full': every reactivex line; 'focus': only scheduledobserver.py/observeonobserver.py/"
     "replaysubject.py lines + every lock/condition operation + probe yields). enum-k1: every schedule with <=1 "
@@ -25,7 +25,8 @@ RULE = (
     "preemptions (every prefix schedule is judged too). Oracle per probe, every run: the delivered list is a prefix of "
     "the received list (exactly once, in order); no callback starts while a callback of another thread is in flight; "
     "every delivery on a non-producer thread and, for the event loop, all on one thread; after a raising delivery k "
-    "exactly k+1 deliveries; at quiescence delivered == received unless that probe raised, its subscription was disposed, "
+    "exactly k+1 deliveries; after a dispose() issued from inside delivery k (deliveries being serial, every later one "
+    "would start after that dispose() returned) exactly k+1 deliveries; at quiescence delivered == received unless that probe raised, its subscription was disposed, "
     "or a raise killed the plain EventLoopScheduler thread; no deadlock; no exception other than the probe's own on a "
     "scheduler thread. Non-trivial: in some explored run a drain step (ScheduledObserver.run line or a delivery in "
     "progress, on a scheduler thread) executed between the entry and the return of a producer emission. "
@@ -50,7 +51,7 @@ def _focus_kw():
 
 
 def _scheduler(on):
-    from reactivex.scheduler import CatchScheduler, EventLoopScheduler, NewThreadScheduler
+    from reactivex.scheduler import CatchScheduler, EventLoopScheduler, NewThreadScheduler, ThreadPoolScheduler
 
     if on == "loop":
         return EventLoopScheduler()
@@ -58,6 +59,8 @@ def _scheduler(on):
         return CatchScheduler(EventLoopScheduler(), lambda e: isinstance(e, conc.Boom))
     if on == "newthread":
         return NewThreadScheduler()
+    if on == "pool":
+        return ThreadPoolScheduler(2)
     raise HarnessError(f"bad scheduler kind {on}")
 
 
@@ -134,8 +137,18 @@ def _build(case):
     conc.fresh_thread_state()
     seq, subs, on = case["seq"], case["subs"], case["on"]
     sch = _scheduler(on)
-    probes = [conc.Probe(f"p{i}", raise_at=s.get("raise")) for i, s in enumerate(subs)]
     disp = {}
+
+    def disposer(i):
+        def f():  # called from inside delivery number dispose_cb of probe i, on the delivering thread
+            if i not in disp:
+                return False  # subscribe() has not returned yet (replay to a racing subscriber): nothing to dispose with
+            disp[i].dispose()
+            return True
+
+        return f
+
+    probes = [conc.Probe(f"p{i}", raise_at=s.get("raise"), dispose_at=s.get("dispose_cb"), disposer=disposer(i)) for i, s in enumerate(subs)]
     if case["target"] == "observe_on":
         subj = Subject()
         piped = subj.pipe(ops.observe_on(sch))
@@ -211,14 +224,17 @@ def _judge(ctx, res):
             return "overlap", f"{tag}: call {p.overlaps[0][:2]} started while {p.overlaps[0][2]} (kind, tid) in flight"
         if any(t is None or t < nprog for t in tids):
             return "wrong-thread", f"{tag}: delivered on program thread(s) {sorted(set(tids), key=str)}"
-        if on != "newthread" and len(set(tids)) > 1:
+        if on in ("loop", "catchloop") and len(set(tids)) > 1:
             return "wrong-thread", f"{tag}: the event loop's deliveries came from threads {sorted(set(tids))}"
         if got != exp[: len(got)]:
             dup = any(got.count(g) > 1 for g in got)
             return ("duplicate" if dup else "order"), tag
         if p.raised and len(got) != p.raised[0] + 1:
             return "delivered-after-raise", f"{tag}: delivery {p.raised[0]} raised"
-        relaxed = bool(p.raised) or (i == 0 and case.get("dispose") is not None) or (any_raise and on == "loop")
+        if p.disposed_in_cb is not None and len(got) != p.disposed_in_cb + 1:
+            # deliveries are serial (this property), so every later one STARTED after that dispose() had returned
+            return "delivered-after-dispose", f"{tag}: the subscription was disposed from inside delivery {p.disposed_in_cb}"
+        relaxed = bool(p.raised) or p.disposed_in_cb is not None or (i == 0 and case.get("dispose") is not None) or (any_raise and on == "loop")
         if res.complete and not relaxed and len(got) != len(exp):
             return "undelivered", f"{tag}: scheduler idle, {len(exp) - len(got)} received notification(s) never delivered"
     return None
@@ -247,6 +263,10 @@ def _classes(ctx, res):
             cl.append("raised-with-more-received")
     if case.get("dispose") is not None:
         cl.append("disposed")
+    if any(p.disposed_in_cb is not None for p in probes):
+        cl.append("disposed-in-callback")
+        if any(p.disposed_in_cb is not None and p.disposed_in_cb + 1 < len(getattr(p, "received", [])) for p in probes):
+            cl.append("disposed-in-callback-with-more-received")
     if any(s["at"] == "thr" for s in case["subs"]):
         cl.append("late-thread-sub")
     if any(isinstance(s["at"], int) for s in case["subs"]):
@@ -258,7 +278,7 @@ def _classes(ctx, res):
 
 def run(case):
     kw = _focus_kw() if case.get("focus") else {}
-    if case["on"] == "newthread":
+    if case["on"] in ("newthread", "pool"):
         kw["max_steps"] = 20000
     culprit = "observe_on" if case["target"] == "observe_on" else "replay-scheduled-observer"
     if any(s["at"] == "thr" for s in case["subs"]):
@@ -325,6 +345,30 @@ _QUICK_K2 = [
 ]
 
 
+def _dcb(k, at="pre"):
+    return {"at": at, "raise": None, "dispose_cb": k}
+
+
+# gap round: ThreadPoolScheduler as the target scheduler; subscriptions disposed from inside a delivery
+_EXTRA_K1 = [
+    ("observe_on", "pool", "NNC", [_pre()], None),
+    ("observe_on", "pool", "NNC", [_pre(0)], None),
+    ("replay", "pool", "NNC", [_thr()], None),
+    ("observe_on", "loop", "NNC", [_dcb(0)], None),
+    ("observe_on", "loop", "NNNE", [_dcb(1)], None),
+    ("observe_on", "newthread", "NNC", [_dcb(0)], None),
+    ("observe_on", "pool", "NNC", [_dcb(1)], None),
+    ("replay", "loop", "NNC", [_dcb(0), _pre()], None),
+    ("replay", "catchloop", "NNE", [_pre(), _dcb(1)], None),
+    ("replay", "loop", "NNC", [_dcb(0, "thr")], None),
+]
+_EXTRA_K2 = [
+    ("observe_on", "pool", "NN", [_pre()], None),
+    ("observe_on", "loop", "NN", [_dcb(0)], None),
+    ("replay", "loop", "NN", [_dcb(0, "thr")], None),
+]
+
+
 def _quick_k1_keep(target, on, seq, subs, dispose):
     """quick tier: NewThreadScheduler programs cost 5-10x the event-loop ones (a thread per drain step); keep the short ones"""
     if on != "newthread":
@@ -335,8 +379,8 @@ def _quick_k1_keep(target, on, seq, subs, dispose):
 
 
 def _enum_k1(tier):
-    for target, on, seq, subs, dispose in _programs(small=False):
-        if tier == "quick" and not _quick_k1_keep(target, on, seq, subs, dispose):
+    for extra, (target, on, seq, subs, dispose) in [(False, p) for p in _programs(small=False)] + [(True, p) for p in _EXTRA_K1]:
+        if tier == "quick" and not extra and not _quick_k1_keep(target, on, seq, subs, dispose):
             continue
         m = 4 if (on == "newthread" and len(subs) > 1) else 1  # spread the big explorations over several cases
         for i in range(m):
@@ -352,7 +396,7 @@ def _enum_k1(tier):
 
 def _enum_k2(tier):
     m = 8
-    for target, on, seq, subs, dispose in _QUICK_K2 if tier == "quick" else _programs(small=True):
+    for target, on, seq, subs, dispose in (_QUICK_K2 if tier == "quick" else _programs(small=True)) + _EXTRA_K2:
         for i in range(m):
             yield _case(target, on, seq, subs, conc.sched_all(2, [i, m]), True, dispose)
     if tier == "thorough":  # three preemptions (focus trace) on the 2-element programs
@@ -368,17 +412,18 @@ _seq = st.builds(lambda n, t: "N" * n + t, st.integers(0, 5), st.sampled_from(["
 
 def _subs(target, n):
     raise_ = st.one_of(st.none(), st.none(), st.integers(0, n - 1))
+    dcb = st.one_of(st.none(), st.none(), st.none(), st.integers(0, n - 1))
     if target == "observe_on":
-        return st.lists(st.fixed_dictionaries({"at": st.just("pre"), "raise": raise_}), min_size=1, max_size=1)
+        return st.lists(st.fixed_dictionaries({"at": st.just("pre"), "raise": raise_, "dispose_cb": dcb}), min_size=1, max_size=1)
     at = st.one_of(st.just("pre"), st.just("pre"), st.just("thr"), st.just("thr"), st.integers(0, n))
-    return st.lists(st.fixed_dictionaries({"at": at, "raise": raise_}), min_size=1, max_size=2)
+    return st.lists(st.fixed_dictionaries({"at": at, "raise": raise_, "dispose_cb": dcb}), min_size=1, max_size=2)
 
 
 _gen = st.tuples(st.sampled_from(["observe_on", "replay", "replay"]), _seq).flatmap(
     lambda ts: st.fixed_dictionaries(
         {
             "target": st.just(ts[0]),
-            "on": st.sampled_from(["loop", "catchloop", "newthread", "loop", "catchloop"]),
+            "on": st.sampled_from(["loop", "catchloop", "newthread", "loop", "catchloop", "pool"]),
             "seq": st.just(ts[1]),
             "subs": _subs(ts[0], len(ts[1])),
             "dispose": st.one_of(st.none(), st.none(), st.none(), st.integers(0, len(ts[1]))),
@@ -393,5 +438,5 @@ def checks(tier):
     return [
         Check("enum-k1", run, cases=lambda tier: conc.scaled(_enum_k1(tier), tier), shards={"quick": 8, "thorough": 16}, exhaustive=True),
         Check("enum-k2", run, cases=lambda tier: conc.scaled(_enum_k2(tier), tier), shards={"quick": 8, "thorough": 16}, exhaustive=True),
-        Check("gen", run, strategy=_gen, examples={"quick": 800, "thorough": 16 * 4000}, shards={"quick": 8, "thorough": 16}),
+        Check("gen", run, strategy=_gen, examples={"quick": 640, "thorough": 16 * 4000}, shards={"quick": 8, "thorough": 16}),
     ]
